@@ -163,6 +163,40 @@ let exec obj line =
       | "ilog2" -> (obj, string_of_int (int_of_z (ilog_2 (z_of_hex (a 0)))))
       | "almost" -> (obj, string_of_int (b2i (is_almost (f_of_hex (a 0)) (f_of_hex (a 1)) (f_of_hex (a 2)))))
       | "fabs" -> (obj, p (fabs (f_of_hex (a 0))))
+      | "consts" ->
+        (* the constants the model was generated with, same names and order as the crate's verif_consts hooks *)
+        let join l = String.concat " " (List.map (fun (n, v) -> Printf.sprintf "%s=%d" n (int_of_z v)) l) in
+        (match a 0 with
+         | "adsr" ->
+           (obj, join [ ("MIN_TIME_PERIOD_SEC", mIN_TIME_PERIOD_SEC_bits); ("MAX_TIME_PERIOD_SEC", mAX_TIME_PERIOD_SEC_bits);
+                        ("ADSR_TOT_NUM_ACCUM_BITS", tOT); ("ADSR_NUM_LUT_INDEX_BITS", iDX) ])
+         | "lfo" -> (obj, join [ ("LFO_TOT_NUM_ACCUM_BITS", lTOT); ("LFO_NUM_LUT_INDEX_BITS", lIDX) ])
+         | "quant" ->
+           (obj, join [ ("NUM_NOTES_PER_OCTAVE", nUM_NOTES_PER_OCTAVE_bits); ("SEMITONE_WIDTH", sEMITONE_WIDTH_bits);
+                        ("HALF_SEMITONE_WIDTH", hALF_SEMITONE_WIDTH_bits); ("HYSTERESIS", hYSTERESIS_bits);
+                        ("ONE_OCTAVE_IN_MICROVOLTS", oNE_OCTAVE_IN_MICROVOLTS); ("HALF_STEP_IN_MICROVOLTS", hALF_STEP_IN_MICROVOLTS);
+                        ("MAX_OCTAVE", mAX_OCTAVE); ("V_MAX", v_MAX_bits) ])
+         | "midi" ->
+           (obj, join [ ("CC_MOD_WHEEL", cC_MOD_WHEEL); ("CC_VOLUME", cC_VOLUME); ("CC_VCF_CUTOFF", cC_VCF_CUTOFF);
+                        ("CC_VCF_RESONANCE", cC_VCF_RESONANCE); ("CC_SUSTAIN_SWITCH", cC_SUSTAIN_SWITCH);
+                        ("CC_PORTAMENTO_SWITCH", cC_PORTAMENTO_SWITCH); ("CC_PORTAMENTO_TIME", cC_PORTAMENTO_TIME);
+                        ("CC_ALL_CONTROLLERS_OFF", cC_ALL_CONTROLLERS_OFF); ("CC_ALL_NOTES_OFF", cC_ALL_NOTES_OFF);
+                        ("U7_HALF_SCALE", u7_HALF_SCALE); ("HELD_DOWN_NOTE_BUFFER_LEN", hELD_DOWN_NOTE_BUFFER_LEN) ])
+         | "ribbon" ->
+           (obj, join [ ("RIBBON_FALL_TIME_USEC", rIBBON_FALL_TIME_USEC); ("RIBBON_RISE_TIME_USEC", rIBBON_RISE_TIME_USEC);
+                        ("MIN_CAPTURE_TIME_USEC", mIN_CAPTURE_TIME_USEC) ])
+         | "glide" -> (
+           match glide_new (f_of_hex (a 1)) with
+           | None -> raise Panic
+           | Some g ->
+             let b x = match to_bits x with Some z -> int_of_z z | None -> -1 in
+             (obj, Printf.sprintf "GLIDE_MIN_FC=%d GLIDE_MAX_FC=%d GLIDE_CACHED_T_INIT=%d" (b g.g_min_fc) (b g.g_max_fc) (b g.g_cached_t)))
+         | _ -> (obj, "BADOP consts"))
+      | "tp" -> (obj, p (time_from (f_of_hex (a 0))))
+      | "sl" -> (obj, p (sustain_from (f_of_hex (a 0))))
+      | "note" ->
+        let n = z_of_int (int_of_string (a 0)) in
+        (obj, Printf.sprintf "%d %d" (int_of_z (note_new n)) (int_of_z (note_new n)))
       | "tab" -> (
         (* array indexing: out of bounds panics in every build *)
         match List.nth_opt (table (a 0)) (int_of_string (a 1)) with
